@@ -9,6 +9,25 @@ IMPL_S = "impl Source for ConcatSource {"
 IMPL_C = "impl ConcatSource {"
 
 
+def leaf(u, relpath, struct_anchor, impl_anchor, tname, field, text_spec, from_fn):
+    """a leaf's four content views against the reduced trait's contract (= C07 for that leaf): the methods are cut verbatim out of
+    `impl Source for <leaf>` and re-assembled as an impl of the reduced trait, so Verus checks each against the trait's `ensures`"""
+    u.item(relpath, struct_anchor)
+    u.raw(f"impl Source for {tname} {{\n  closed spec fn text(&self) -> Seq<u8> {{ {text_spec} }}\n  closed spec fn raw(&self) -> Seq<u8> {{ {text_spec} }}", ("glue", NAME))
+    for fn in ("source", "rope", "buffer", "size"):
+        m = u.method(relpath, impl_anchor, fn)
+        if fn == "rope":
+            # D6f: `Rope::from(&self.<field>)` -> the named constructor of the opaque Rope type (`From<&String>` / `From<&Cow<str>>`)
+            m.rule("D6f", r"Rope::from\(&self\." + field + r"\)", f"Rope::{from_fn}(&self.{field})", fn="rope")
+        if fn in ("source", "buffer") and from_fn == "from_cow":
+            m.body_start(fn, f"{tname}::{fn}.hint.deref", "hint", "broadcast use {axiom_cow_str_deref};")
+        if fn == "size" and from_fn == "from_cow":
+            m.body_start(fn, f"{tname}::{fn}.hint.deref", "hint", "broadcast use {axiom_cow_str_deref, axiom_str_len_bound};")
+        m.body_start(fn, f"canary.{tname}::{fn}", "canary", "proof { assert(false); }")
+        u.contracted.append((f"<{tname} as Source>::{fn}", relpath))
+    u.raw("}", ("glue", NAME))
+
+
 def build(u):
     for x in ["use vstd::string::StringSliceAdditionalSpecFns;", "use vstd::utf8::*;", "use std::borrow::Cow;", "use std::sync::Arc;"]:
         u.use(x)
@@ -84,5 +103,7 @@ def build(u):
     sz.body_start("size", "canary.ConcatSource::size", "canary", "proof { assert(false); }")
     sz.loop_body_start("size", 1, "canary.ConcatSource::size.loop1", "canary", "proof { assert(false); }")
     u.raw("}", ("glue", NAME))
+    leaf(u, "src/original_source.rs", "pub struct OriginalSource {", "impl Source for OriginalSource {", "OriginalSource", "value", "encode_utf8(self.value@)", "from_string")
+    leaf(u, "src/raw_source.rs", "pub struct RawStringSource(", "impl Source for RawStringSource {", "RawStringSource", "0", "cow_str_bytes(&self.0)", "from_cow")
     u.contracted += [("ConcatSource::children", "src/concat_source.rs"), ("ConcatSource::source", "src/concat_source.rs"), ("ConcatSource::rope", "src/concat_source.rs"),
                      ("ConcatSource::buffer", "src/concat_source.rs"), ("ConcatSource::size", "src/concat_source.rs")]
